@@ -340,6 +340,9 @@ func (h *c15hist) hasRelative(x *c15key) bool {
 // c15scalar returns a private scalar in [1, n-1], sometimes with leading zero
 // bytes.
 func c15scalar(r *vf.Rand) *big.Int {
+	if r.Chance(1, 40) {
+		return specialScalar(r.Intn(2))
+	}
 	b := r.Bytes(32)
 	if r.Chance(1, 12) {
 		z := r.Range(1, 3)
@@ -375,6 +378,14 @@ func c15randomRef(r *vf.Rand, allowCustomVersion bool) *ref.XKey {
 	}
 	if allowCustomVersion && r.Chance(1, 5) {
 		copy(x.Version[:], r.Bytes(4))
+	} else if allowCustomVersion && r.Chance(1, 6) {
+		// the version bytes of the OTHER key type of a registered network
+		// (a private key labelled with a public id and vice versa)
+		if private {
+			x.Version = net.pub
+		} else {
+			x.Version = net.priv
+		}
 	}
 	copy(x.ChainCode[:], r.Bytes(32))
 	switch r.Intn(4) {
@@ -912,6 +923,13 @@ func (h *c15hist) opRead(x *c15key, which int) {
 		} else if got := pk.SerializeCompressed(); !eqBytes(got, want) {
 			h.broken = true
 			c.Failf("ECPubKey/value", "key#%d (%s).ECPubKey()=%x, reference %x\nhistory: %s", x.n, x.how, got, want, h.trace())
+		}
+		if pk != nil && pk.X != nil && pk.Y != nil && h.r.Bool() {
+			// the caller tweaks the returned point in place (it owns it)
+			pk.X.SetInt64(0)
+			pk.Y.SetInt64(0)
+			h.note("(caller overwrote the returned point)")
+			c.Inc("op_ECPubKey_result_overwritten_by_caller")
 		}
 		h.observeAll("ECPubKey", x)
 	case 2:
